@@ -1754,6 +1754,9 @@ impl<'a, 'b, W: Write> SerializeSeq for SeqSer<'a, 'b, W> {
                 if !self.ser.at_line_start {
                     self.ser.newline()?;
                 }
+                // The sequence starts on its own line: an inline hint staged for the value of
+                // a composite key (`: k: v`) must not suppress the indentation of its dashes.
+                self.ser.pending_inline_map = false;
             }
             // If previous element was an inline map after a dash, just clear the flag; do not change depth.
             if !self.first && self.ser.inline_map_after_dash {
